@@ -291,7 +291,7 @@ def fixed_texts(tier):
 
 def deep_texts(tier):
     out = []
-    ns = [10, 511, 512, 513, 100000] if tier == "quick" else [10, 100, 510, 511, 512, 513, 514, 1000, 5000, 100000, 1000000]
+    ns = [10, 100, 511, 512, 513, 100000] if tier == "quick" else [10, 100, 510, 511, 512, 513, 514, 1000, 5000, 100000, 1000000]
     for n in ns:
         out.append(("deep", b"[" * n))
         if n <= 5000:
@@ -551,7 +551,11 @@ def model_skip(case):
     kind, line = case
     if kind == "tree-float":
         return True        # dump of a double is not modelled
-    return kind == "deep" and len(line) > 700000   # 10^6-deep texts: implementation + specification only
+    if kind != "deep":
+        return False
+    # dump() of an n-deep object is n^2 bytes of padding and the model reads by index from the start (quadratic):
+    # objects deeper than ~150 and the 10^6-byte texts are judged on the implementation + specification only
+    return len(line) > 700000 or ("7b" in line[:16] and len(line) > 2200)
 
 
 def binaries(c=None):
